@@ -1,4 +1,5 @@
 //@ item: integer/src/add.rs :: sub_in_place_with_sign
+/*@ #[verifier::spinoff_prover] @*/
 pub fn sub_in_place_with_sign(lhs: &mut [Word], rhs: &[Word]) -> Sign
 /*@
     requires rhs@.len() <= old(lhs)@.len() <= usize::MAX,
